@@ -113,6 +113,11 @@ func genC14(t *rapid.T) c14Case {
 func runC14(c c14Case) vh.Result {
 	var res vh.Result
 	script := &peer.Script{Mechs: c.Mechs, OfferTLS: c.TLS, MechsPreTLS: c.PreMechs}
+	if c.Var%4 == 3 {
+		// the feature sets also carry a <mechanisms/> look-alike from a foreign namespace that lists PLAIN and X-OAUTH2
+		script.Variant = map[string]int{"open1": 4, "open2": 4}
+		res.Label("foreign-mechanisms-lookalike")
+	}
 	switch c.Reply {
 	case "failure":
 		script.Dev = map[string]peer.Dev{"auth": {Kind: "failure", Variant: c.Var}}
@@ -293,7 +298,7 @@ func isAlnum(s string) bool {
 
 var c14 = vh.Define(&vh.Def[c14Case]{
 	Property: "C14", Name: "sasl",
-	Rule: "local parts over everything NewJid accepts (ASCII, odd punctuation incl. & and NUL, non-ASCII, astral), secrets as arbitrary byte strings (alphanumeric, random bytes incl. invalid UTF-8, NUL-adjacent, XML metacharacters, all XML-legal text), password or token credential, server mechanism lists of 0-6 names drawn with repetition from known, unknown, wrong-case and empty names (with the matching mechanism inserted at a generated position in half of the cases), server reply success / failure (13 forms: every RFC 6120 condition, with and without text, none, an undefined one) / another element (8 forms); in a third of the cases the list differs before and after STARTTLS, or the same Client made an earlier successful connection against another list and reconnects; in an eighth of the single-connection cases the write of the <auth/> element is faulted in a wrapped Transport (0 bytes and no error, an error, or half of the bytes and an error) and Connect must then fail; a real Client connects to the scripted peer over TCP; oracle on the peer transcript: mechanism == the one the credential supports and it was advertised, base64-decoded payload == NUL local NUL secret byte for byte; no common mechanism => nothing after the stream header and a permanent ConnError; <failure/> => permanent error; anything but <success/> => Connect fails; non-trivial = secret or local part not purely alphanumeric, or the mechanism list is not exactly [PLAIN]",
+	Rule: "local parts over everything NewJid accepts (ASCII, odd punctuation incl. & and NUL, non-ASCII, astral), secrets as arbitrary byte strings (alphanumeric, random bytes incl. invalid UTF-8, NUL-adjacent, XML metacharacters, all XML-legal text), password or token credential, server mechanism lists of 0-6 names drawn with repetition from known, unknown, wrong-case and empty names (with the matching mechanism inserted at a generated position in half of the cases; in a quarter of the cases the features also carry a <mechanisms/> look-alike from a foreign namespace that lists both mechanisms and offers nothing), server reply success / failure (13 forms: every RFC 6120 condition, with and without text, none, an undefined one) / another element (8 forms); in a third of the cases the list differs before and after STARTTLS, or the same Client made an earlier successful connection against another list and reconnects; in an eighth of the single-connection cases the write of the <auth/> element is faulted in a wrapped Transport (0 bytes and no error, an error, or half of the bytes and an error) and Connect must then fail; a real Client connects to the scripted peer over TCP; oracle on the peer transcript: mechanism == the one the credential supports and it was advertised, base64-decoded payload == NUL local NUL secret byte for byte; no common mechanism => nothing after the stream header and a permanent ConnError; <failure/> => permanent error; anything but <success/> => Connect fails; non-trivial = secret or local part not purely alphanumeric, or the mechanism list is not exactly [PLAIN]",
 	Quick: 3000, Thorough: 24000, Journal: true,
 	Gen: genC14, Run: runC14,
 })
